@@ -8,6 +8,7 @@ Part 2 (flavours): the real BaseSyncGateway driven by scripted pump schedules (o
 real `_poll_queue` loop per pump event) against the real BaseAsyncGateway on the same lines, and
 against the Lean pump model.  Part 3: bytes in, state and transport log out, chunked vs whole.
 """
+import asyncio
 import random
 import socket
 import time
@@ -23,6 +24,7 @@ THEOREMS = [
     "MySensors.C19.behaviour_independent_of_segmentation", "MySensors.C19.inline_is_model_run",
     "MySensors.C19.inline_output_is_model_step",
     "MySensors.C19.reconnect_is_concatenation", "MySensors.C19.events_any_two",
+    "MySensors.C19.behaviour_independent_of_connection_events",
     "MySensors.C19.reconnect_drop_policy", "MySensors.C19.events_deliver_complete_lines",
     "MySensors.C19.lost_and_made_deliver_nothing", "MySensors.C19.policies_agree_without_tail",
     "MySensors.C19.flavours_counterexample", "MySensors.C19.flavours_counterexample_outputs",
@@ -257,6 +259,151 @@ def real_events(cls_name, evs):
     return out, bytes(proto.buffer), notes
 
 
+class _Shim:
+    def __init__(self, **kw):
+        self.__dict__.update(kw)
+
+
+GW_KINDS = ["serial", "tcp", "aserial", "atcp"]
+
+
+def with_real_connections(kind, nconn, drive):
+    """Call the REAL connect function of a gateway class once per connection on fake devices that only record
+    the protocol factory they are given, then run `drive(gateway, lines, factories)` with the fakes still in
+    place (a lost connection makes the real code connect again: that must reach the fakes too, and for the
+    asyncio classes it needs the running loop)."""
+    import socket as real_socket
+    import mysensors.gateway_serial as gs
+    import mysensors.gateway_tcp as gt
+    captured = []
+
+    class FakeReader:                         # stands in for serial.threaded.ReaderThread / TCPTransport
+        def __init__(self, _dev, factory, *_a):
+            captured.append(factory)
+            self.daemon = True
+
+        def start(self):
+            pass
+
+        def connect(self):
+            pass
+
+    lines = []
+
+    def add_job(func, *args):
+        lines.append((getattr(func, "__name__", "?"), args))
+
+    if kind == "serial":
+        gw = gs.SerialGateway("/dev/ttyFAKE", protocol_version="2.2")
+        gw.tasks.add_job = add_job
+        old = gs.serial
+        gs.serial = _Shim(serial_for_url=lambda *a, **k: object(), SerialException=old.SerialException,
+                          threaded=_Shim(ReaderThread=FakeReader), tools=old.tools)
+        try:
+            for _ in range(nconn):
+                gs.sync_connect(gw.tasks.transport)
+            return drive(gw, lines, captured[:nconn])
+        finally:
+            gw.tasks.transport.protocol = None          # ends any connect loop the run left behind
+            _join_connect_threads()
+            gs.serial = old
+    if kind == "tcp":
+        gw = gt.TCPGateway("127.0.0.1", protocol_version="2.2")
+        gw.tasks.add_job = add_job
+        old_sock, old_tr = gt.socket, gt.TCPTransport
+        gt.socket = _Shim(create_connection=lambda *a, **k: object(), timeout=real_socket.timeout)
+        gt.TCPTransport = FakeReader
+        try:
+            for _ in range(nconn):
+                gt.sync_connect(gw.tasks.transport)
+            return drive(gw, lines, captured[:nconn])
+        finally:
+            gw.tasks.transport.protocol = None
+            _join_connect_threads()
+            gt.socket, gt.TCPTransport = old_sock, old_tr
+
+    class Loop(asyncio.SelectorEventLoop):
+        async def create_connection(self, factory, *_a, **_k):
+            captured.append(factory)
+            return None, None
+
+    async def create_serial_connection(_loop, factory, *_a, **_k):
+        captured.append(factory)
+        return None, None
+
+    if kind == "aserial":
+        gw = gs.AsyncSerialGateway("/dev/ttyFAKE", protocol_version="2.2")
+        connect = gs.async_connect
+    else:
+        gw = gt.AsyncTCPGateway("127.0.0.1", protocol_version="2.2")
+        connect = gt.async_connect
+    gw.tasks.add_job = add_job
+
+    async def go():
+        for _ in range(nconn):
+            await connect(gw.tasks.transport)
+            if getattr(gw, "cancel_check_conn", None):
+                gw.cancel_check_conn()
+        try:
+            return drive(gw, lines, captured[:nconn])
+        finally:
+            gw.tasks.transport.protocol = None
+            for t in asyncio.all_tasks():
+                if t is not asyncio.current_task():
+                    t.cancel()
+            await asyncio.sleep(0)
+
+    old = gs.serial_asyncio
+    gs.serial_asyncio = _Shim(create_serial_connection=create_serial_connection)
+    loop = Loop()
+    try:
+        return loop.run_until_complete(go())
+    finally:
+        gs.serial_asyncio = old
+        loop.close()
+
+
+def _join_connect_threads():
+    import threading
+    for t in threading.enumerate():
+        if t is not threading.current_thread() and not t.daemon and t.name.startswith("Thread-"):
+            t.join(2.0)
+
+
+def real_events_connect(kind, evs):
+    """like real_events, but the protocol object of each connection is whatever the real connect function of
+    the gateway class hands to that connection"""
+    nconn = sum(1 for e in evs if e[0] == "M")
+
+    def drive(gw, lines, factories):
+        del lines[:]                               # version probes queued by check_connection are not lines
+        notes = []
+        if len(factories) != nconn:
+            return [], b"", [f"{nconn} connect calls handed out {len(factories)} protocol factories"]
+        proto, k = None, 0
+        for ev in evs:
+            before = len(lines)
+            try:
+                if ev[0] == "M":
+                    proto = factories[k]()
+                    k += 1
+                    proto.connection_made(_FakeConn())
+                elif ev[0] == "D":
+                    proto.data_received(ev[1])
+                    continue
+                else:
+                    proto.connection_lost(OSError("link down") if ev[1] else None)
+            except Exception as exc:  # noqa: BLE001
+                notes.append(f"{ev[0]} raised {type(exc).__name__}: {exc}")
+            new = [x for x in lines[before:] if x[0] == "logic"]
+            if new:
+                notes.append(f"{ev[0]} delivered {new!r}")
+        out = [a[0] for n, a in lines if n == "logic" and len(a) == 1]
+        return out, (bytes(proto.buffer) if proto is not None else b""), notes
+
+    return with_real_connections(kind, nconn, drive)
+
+
 def gen_events(rng, stream):
     """cut the stream into 1..4 connections, each into 1..3 chunks; the link goes down with or without an error"""
     n = len(stream)
@@ -304,7 +451,7 @@ def spec_events(evs):
 
 
 def judge_events(res, cls, evs, policies):
-    got_lines, got_buf, notes = real_events(cls, evs)
+    got_lines, got_buf, notes = (real_events_connect if cls in GW_KINDS else real_events)(cls, evs)
     keep, drop = spec_events(evs)
     got = (got_lines, got_buf)
     verdict = None
@@ -332,8 +479,13 @@ def part_events(res, rng, driver, tier):
              [("M",), ("D", b"\xc3"), ("L", False), ("M",), ("D", b"\xbc\n")]]
     ops, impl, cases = [], [], []
     k = 0
-    for evs in fixed + [gen_events(rng, s) for s in streams for _ in range(2)]:
-        cls = classes[k % 3]
+    todo = [(None, evs) for evs in fixed + [gen_events(rng, s) for s in streams for _ in range(2)]]
+    # the same kind of history with the protocol object each connection really gets: the real connect
+    # function of each gateway class is called once per connection on recording fake devices
+    todo += [(kind, evs) for kind in GW_KINDS for evs in fixed + [gen_events(rng, s) for s in streams[:40 if tier == "quick" else 400]]
+             if evs and evs[0][0] == "M"]
+    for kind, evs in todo:
+        cls = kind or classes[k % 3]
         k += 1
         got = judge_events(res, cls, evs, policies)
         res.evaluations += 1
@@ -439,6 +591,15 @@ def part_tcp_reader(res, rng, tier):
                 if recvd["n"] >= total:
                     state["done"] = True
             proto.data_received = counting_dr
+            # the residue is what the buffer holds when the reader loop ends; what connection_lost does with it
+            # afterwards (keep it, as now, or empty it) is the subject of part_events, not of this comparison
+            tail = {}
+            real_cl = proto.connection_lost
+
+            def snapshot_cl(exc):
+                tail.setdefault("buf", bytes(proto.buffer))
+                return real_cl(exc)
+            proto.connection_lost = snapshot_cl
             if total == 0:
                 state["done"] = True
             tr.alive = True
@@ -455,7 +616,7 @@ def part_tcp_reader(res, rng, tier):
             gtcp.time = orig_time
             a.close()
             b.close()
-        got = ([args[0] for _, args in lines], bytes(proto.buffer))
+        got = ([args[0] for _, args in lines], tail.get("buf", bytes(proto.buffer)))
         want = spec_feed(stream)
         res.evaluations += 1
         res.count("tcp-reader-streams")
@@ -939,7 +1100,8 @@ def replay(payload):
         return 0 if got == whole == spec_feed(stream) else 1
     if part == "events":
         evs = ev_from_json(r["events"])
-        got = real_events(r.get("cls", "base"), evs)
+        cls = r.get("cls", "base")
+        got = (real_events_connect if cls in GW_KINDS else real_events)(cls, evs)
         keep, drop = spec_events(evs)
         print("real   :", got)
         print("keep   :", keep)
